@@ -211,6 +211,9 @@ def gen_cases(tier, seed):
         sp['entry'] = 'future.cancel'
         cases.append(sp)
     rng.shuffle(cases)
+    from ..gen import sprinkle
+
+    sprinkle(cases, seed)
     return cases
 
 
